@@ -59,14 +59,16 @@ fn funding_tx(d: u64) -> Transaction {
 
 /// `max_channels`: `None` = the default policy (MAX_CHANNELS); `Some(m)` = the default policy with `max_channels = m`
 /// (configuration branch of `find_or_create_channel`: the channel map is full)
-fn services(persister: Arc<dyn Persist>, max_channels: Option<usize>) -> NodeServices {
-    let factory = match max_channels {
-        None => SimpleValidatorFactory::new(),
-        Some(m) => {
-            let mut p = make_default_simple_policy(Network::Regtest);
-            p.max_channels = m;
-            SimpleValidatorFactory::new_with_policy(p)
-        }
+/// `permissive` (round 9): the node runs with `PolicyFilter::new_permissive()` (every filterable policy violation is only a
+/// warning, as with VLS_PERMISSIVE=1) — configuration branch: what the property demands must not depend on the filter
+fn services(persister: Arc<dyn Persist>, max_channels: Option<usize>, permissive: bool) -> NodeServices {
+    let factory = if max_channels.is_none() && !permissive {
+        SimpleValidatorFactory::new()
+    } else {
+        let mut p = make_default_simple_policy(Network::Regtest);
+        if let Some(m) = max_channels { p.max_channels = m; }
+        if permissive { p.filter = lightning_signer::policy::filter::PolicyFilter::new_permissive(); }
+        SimpleValidatorFactory::new_with_policy(p)
     };
     NodeServices {
         validator_factory: Arc::new(factory),
@@ -88,6 +90,7 @@ pub struct W15 {
     pub chain: Vec<Vec<u64>>,
     pub cb: u32,
     pub max_channels: Option<usize>,
+    pub permissive: bool,
 }
 
 fn chan_id(d: u64) -> ChannelId {
@@ -98,17 +101,20 @@ impl W15 {
     pub fn new() -> W15 { W15::new_with(None) }
 
     /// a node whose policy allows at most `max_channels` entries in the channel map
-    pub fn new_with(max_channels: Option<usize>) -> W15 {
+    pub fn new_with(max_channels: Option<usize>) -> W15 { W15::new_cfg(max_channels, false) }
+
+    /// `permissive`: see `services`
+    pub fn new_cfg(max_channels: Option<usize>, permissive: bool) -> W15 {
         let persister: Arc<dyn Persist> = Arc::new(KVVPersister(MemoryKVVStore::new([7u8; 16]), JsonFormat));
         let mut seed = [0u8; 32];
         seed.copy_from_slice(&hex::decode(TEST_SEED[1]).unwrap());
         // regtest: blocks of regtest difficulty can cross the retarget boundary at 2016 (on testnet they exceed the chain maximum)
         let config = NodeConfig { network: Network::Regtest, key_derivation_style: KeyDerivationStyle::Native, use_checkpoints: false, allow_deep_reorgs: true };
-        let node = Arc::new(Node::new(config, &seed, vec![], services(persister.clone(), max_channels)));
+        let node = Arc::new(Node::new(config, &seed, vec![], services(persister.clone(), max_channels, permissive)));
         persister.new_node(&node.get_id(), &config, &*node.get_state()).unwrap();
         persister.new_tracker(&node.get_id(), &node.get_tracker()).unwrap();
         node.add_allowlist(&[]).unwrap();
-        let mut w = W15 { persister, node, seed, txs: BTreeMap::new(), ids: HashMap::new(), kinds: BTreeMap::new(), blocks: vec![], chain: vec![], cb: 0, max_channels };
+        let mut w = W15 { persister, node, seed, txs: BTreeMap::new(), ids: HashMap::new(), kinds: BTreeMap::new(), blocks: vec![], chain: vec![], cb: 0, max_channels, permissive };
         w.ids.insert(lightning_signer::bitcoin::hashes::Hash::all_zeros(), 0);
         for d in 1..=NCH {
             let f = funding_tx(d);
@@ -314,7 +320,7 @@ impl W15 {
 
     pub fn restart(&mut self) {
         let (node_id, entry) = self.persister.get_nodes().unwrap().into_iter().next().unwrap();
-        let node = Node::restore_node(&node_id, entry, &self.seed, services(self.persister.clone(), self.max_channels)).unwrap();
+        let node = Node::restore_node(&node_id, entry, &self.seed, services(self.persister.clone(), self.max_channels, self.permissive)).unwrap();
         self.node = node;
     }
 
@@ -452,9 +458,11 @@ fn apply_basic(w: &mut W15, op: &str) {
 fn forgot_or_pruned_ok(_op: &str) -> bool { true }
 
 /// `init` = default policy; `init m<K>` = policy with `max_channels = K`
+/// a trailing `perm` = permissive policy filter (implementation only: the model line drops it)
 fn init_max(op: &str) -> Option<usize> {
-    op.split_whitespace().nth(1).and_then(|t| t.strip_prefix('m')).and_then(|k| k.parse().ok())
+    op.split_whitespace().skip(1).find_map(|t| t.strip_prefix('m').and_then(|k| k.parse().ok()))
 }
+fn init_perm(op: &str) -> bool { op.split_whitespace().skip(1).any(|t| t == "perm") }
 
 pub struct C15;
 
@@ -480,6 +488,9 @@ impl Group for C15 {
         let mut v = vec![
             // forget, restart, id reuse attempts
             mk("init|new 2|new 3|forget 3|restart|new 3|new 2|new 1|new 4|heartbeat"),
+            // round 9: the same under a permissive policy filter (every filterable violation only a warning), with a full map too
+            mk("init perm|new 2|new 3|forget 3|new 3|new 2|restart|new 3|new 2|new 1|new 4|heartbeat"),
+            mk("init m2 perm|new 1|new 2|new 3|forget 2|new 2|new 1|restart|new 2|new 3|heartbeat"),
             // holder commitment with an HTLC: our main output swept, the HTLC output never; forgotten; aged far beyond MIN_DEPTH and
             // beyond the depth a closed channel is watched for: must survive every heartbeat
             mk("init|new 1|setup 1|add 11|add 14|add 15|forget 1|addn 2020|heartbeat|addn 10|heartbeat|restart|heartbeat"),
@@ -653,6 +664,12 @@ impl Group for C15 {
             ops[0] = format!("init m{}", m);
             w = W15::new_with(Some(m as usize));
         }
+        // configuration branch (round 9): a permissive policy filter (1/4 of the generic cases, combined with either capacity);
+        // the id-reuse refusal, the capacity refusal and pruning must be the same as under the default filter
+        if rng.chance(1, 4) {
+            ops[0] = format!("{} perm", ops[0]);
+            w = W15::new_cfg(w.max_channels, true);
+        }
         let steps = rng.range(5, if tier == Tier::Quick { 14 } else { 24 });
         let mut long_runs = 0;
         for _ in 0..steps {
@@ -719,8 +736,8 @@ impl Group for C15 {
     fn model_line(&self, op: &str) -> Option<String> {
         let t: Vec<&str> = op.split_whitespace().collect();
         Some(match t.as_slice() {
-            ["init"] => "init 3 1".to_string(),
-            ["init", m] => format!("init 3 1 {}", m.trim_start_matches('m')),
+            ["init"] | ["init", "perm"] => "init 3 1".to_string(),
+            ["init", m] | ["init", m, "perm"] => format!("init 3 1 {}", m.trim_start_matches('m')),
             ["setup", d] => {
                 let d: u64 = d.parse().unwrap();
                 format!("setup {} {} {} 0 0.{};0.{}", d, d, fid(d), 10 * d + 1, 10 * d + 2)
@@ -740,7 +757,7 @@ impl Group for C15 {
             if dead { co.out.push("dead".into()); continue; }
             let t: Vec<&str> = op.split_whitespace().collect();
             if t[0] == "init" {
-                w = Some(W15::new_with(init_max(op)));
+                w = Some(W15::new_cfg(init_max(op), init_perm(op)));
                 co.out.push(format!("ok {}", w.as_ref().unwrap().digest()));
                 continue;
             }
